@@ -1,4 +1,4 @@
-//@unit c02_itemset props=C02,C04 widths=u32
+//@unit c02_itemset props=C02,C04,C16 widths=u32
 //@use prelude/head.rs
 //@use prelude/vob.rs
 //@use prelude/grammar.rs
@@ -381,8 +381,8 @@ impl Itemset {
         requires grm.wf(), firsts.wf(grm), items_wf(grm, self.items.m()),
         ensures items_wf(grm, r.items.m()),
             sub(self.items.m(), r.items.m()), // OBL: C02.close.contains_the_core_items_with_their_lookaheads
-            closed(grm, firsts, r.items.m()), // OBL: C02.close.is_closed_under_the_lr1_closure_rule C04.close.is_closed_under_the_lr1_closure_rule
-            least_inv(grm, firsts, self.items.m(), r.items.m()), // OBL: C02.close.adds_nothing_the_closure_rule_does_not_demand
+            closed(grm, firsts, r.items.m()), // OBL: C02.close.is_closed_under_the_lr1_closure_rule C04.close.is_closed_under_the_lr1_closure_rule C16.close.is_closed_under_the_lr1_closure_rule
+            least_inv(grm, firsts, self.items.m(), r.items.m()), // OBL: C02.close.adds_nothing_the_closure_rule_does_not_demand C16.close.adds_nothing_the_closure_rule_does_not_demand
     {
         //@probe
         let ghost m0 = self.items.m();
